@@ -213,14 +213,12 @@ def run(ctx):
                "error reported outside any #[quantity] definition %s: %s" % (ranges, [(e[1][:80], e[3]) for e in outside][:3]), where)
         # errors emitted by the macro itself (no error code): message and position as recorded in the repository
         for (msg, code, loc) in exp:
-            if code is None and loc is not None:
-                hit = [e for e in errs if e[3] == loc[0] and e[4] == loc[1] and e[1].splitlines()[0].strip() == msg.strip()]
+            if loc is not None:
+                # position only: a reworded message is not a violation
+                hit = [e for e in errs if e[3] == loc[0] and (code is not None or e[4] == loc[1])]
                 ctx.ob("ui-expected-error", "%s/%d:%d" % (name, loc[0], loc[1]), bool(hit),
-                       "expected macro error %r at %d:%d not reported; got %s" % (msg, loc[0], loc[1], [(e[1].splitlines()[0][:60], e[3], e[4]) for e in errs][:3]), where)
-            elif loc is not None:
-                hit = [e for e in errs if e[3] == loc[0]]
-                ctx.ob("ui-expected-error", "%s/%d:%d/%s" % (name, loc[0], loc[1], code), bool(hit),
-                       "expected a compiler error at line %d; got %s" % (loc[0], [(e[5], e[3]) for e in errs][:4]), where, nontrivial=False)
+                       "the repository records an error at %d:%d (%r); none is reported there; got %s" % (
+                           loc[0], loc[1], msg[:60], [(e[1].splitlines()[0][:60], e[3], e[4]) for e in errs][:3]), where, nontrivial=(code is None))
     ctx.floor("compile-fail witnesses", n_fail, 36 + 13)
     ctx.floor("compiling twins", n_pass, 4)
     ctx.extra["witness_dir"] = d
